@@ -1714,6 +1714,40 @@ func reasmFamily(ctx *Ctx) error {
 			report(runReasmCase(ctx, m, c, idx), c)
 			idx++
 		}
+		// records of one event keep arriving at intervals shorter than the timeout: the deadline stays that of the
+		// first record (C19_deadline_from_first_record), so the first Maintain or push after first + timeout delivers
+		// the event although its latest record is younger than the timeout
+		for _, toMs := range []int{100, 160} {
+			for _, recs := range []int{2, 3, 4} {
+				for _, closer := range []string{"maintain", "push", "eoe-other"} {
+					c := RCase{Real: true, InWindow: true, Base: 1000, Max: 5, TimeoutNs: int64(toMs) * int64(time.Millisecond)}
+					gap := toMs * 6 / 10 / (recs - 1) * 2 // the last record arrives at 1.2·T·(recs-1)/recs … kept below T by the cut
+					if gap*(recs-1) > toMs*8/10 {
+						gap = toMs * 8 / 10 / (recs - 1)
+					}
+					typs := []uint16{tSYSCALL, tPATH, tCWD, tPATH}
+					for k := 0; k < recs; k++ {
+						if k > 0 {
+							c.Ops = append(c.Ops, ROp{K: "sleep", Ms: gap})
+						}
+						c.Ops = append(c.Ops, ROp{K: "push", ID: k + 1, Seq: 1000, Typ: typs[k]})
+					}
+					c.Ops = append(c.Ops, ROp{K: "sleep", Ms: toMs - gap*(recs-1) + toMs*3/10})
+					switch closer {
+					case "maintain":
+						c.Ops = append(c.Ops, ROp{K: "maintain"})
+					case "push":
+						c.Ops = append(c.Ops, ROp{K: "push", ID: 50, Seq: 1001, Typ: tSYSCALL})
+					default:
+						c.Ops = append(c.Ops, ROp{K: "push", ID: 50, Seq: 1077, Typ: tEOE})
+					}
+					c.Ops = append(c.Ops, ROp{K: "close"})
+					res.Hist("records keep arriving, deadline of the first")
+					report(runReasmCase(ctx, m, c, idx), c)
+					idx++
+				}
+			}
+		}
 		n := ctx.N(40, 400)
 		for i := 0; i < n && res.NumViolations() < 5; i++ {
 			c := genReasmRealCase(ctx.Rng)
